@@ -5,8 +5,20 @@ package lib
 // stops reading so that the relay's Write blocks on a full window.  All cases run in parallel.
 // No assertions about conjure: it records whether / when Proxy returned, what each peer saw, the
 // bytes relayed, and (for the lane as a whole) the goroutine delta and the session gauge.
+//
+// Fourth wave: (1) a SLOW-BUT-COMPLETE reader (throttled at the peer, never in the relay) with volumes far above
+// the socket buffers, so that data the relay has written and counted is still in the station's kernel send queue
+// when the tunnel is torn down: recorded at the peer are byte count, SHA-256, how the stream ended (EOF / reset) and
+// when; from the tunnel its summary line (BytesUp / BytesDown / error strings).  (2) PROBE cases: the driver keeps a
+// duplicate descriptor of both station-side sockets (the client one through SyscallConn, the covert one - dialled
+// inside Proxy - by looking the descriptor up by its address pair) and reads, after Proxy returned, what the
+// shutdown calls left on the socket itself: SO_LINGER (on/off and seconds), the TCP state (did the station send a FIN
+// although a descriptor is still open = shutdown(SHUT_WR)), whether reads were shut down, whether the station's own
+// descriptor is closed.
 
 import (
+	"crypto/sha256"
+	"encoding/hex"
 	"encoding/json"
 	"errors"
 	"io"
@@ -15,8 +27,10 @@ import (
 	"sync"
 	"sync/atomic"
 	"syscall"
+	"strings"
 	"testing"
 	"time"
+	"unsafe"
 
 	"github.com/refraction-networking/conjure/pkg/core"
 	"github.com/refraction-networking/conjure/pkg/station/log"
@@ -25,7 +39,11 @@ import (
 
 type c05Peer struct {
 	Send    int    `json:"send"`     // bytes this peer writes (pattern), possibly blocking
-	Read    string `json:"read"`     // drain | none
+	Read    string `json:"read"`     // drain | slow (throttled: chunk_kb per read, pause_us after each) | none
+	ChunkKB int    `json:"chunk_kb"`
+	PauseUs int    `json:"pause_us"`
+	RcvBuf  int    `json:"rcvbuf"`   // > 0: fixed SO_RCVBUF of this peer (no autotuning)
+	SendAll bool   `json:"send_all"` // the end action waits until the kernel has accepted all of `send`
 	End     string `json:"end"`      // closewrite | close | rst | wait
 	DelayMs int    `json:"delay_ms"` // before the end action (after the send has been handed to the kernel or has blocked)
 }
@@ -34,6 +52,19 @@ type c05TCPCase struct {
 	Client  c05Peer `json:"client"`
 	Covert  c05Peer `json:"covert"`
 	BoundMs int     `json:"bound_ms"`
+	BigBuf  bool    `json:"big_buf"` // leave the kernel's default (autotuned) socket buffers
+	Probe   bool    `json:"probe"`   // keep duplicate descriptors of the station's sockets and read their options afterwards
+}
+
+// what the station's shutdown calls left on one of its sockets (read through a duplicate descriptor)
+type c05SockProbe struct {
+	Found      bool   `json:"found"`
+	LingerOn   int32  `json:"lingerOn"`
+	LingerSecs int32  `json:"lingerSecs"`
+	State      int    `json:"state"` // tcp_info.tcpi_state (1 ESTABLISHED, 4 FIN_WAIT1, 5 FIN_WAIT2, 8 CLOSE_WAIT, 9 LAST_ACK ...)
+	Peek       string `json:"peek"`  // eof | again | data | err:<..>   (MSG_PEEK|MSG_DONTWAIT)
+	OrigClosed bool   `json:"origClosed"`
+	Err        string `json:"err"`
 }
 type c05PeerObs struct {
 	Got       int    `json:"got"`       // bytes read
@@ -41,6 +72,10 @@ type c05PeerObs struct {
 	Sent      int    `json:"sent"`      // bytes the kernel accepted
 	SawClose  string `json:"sawClose"`  // how this peer's read side ended: eof | reset | other:<..> | "" (never within the bound)
 	WriteDead bool   `json:"writeDead"` // a write after the relay ended failed (the station's socket is fully closed)
+	Hash      string `json:"hash"`      // SHA-256 of the bytes read
+	SentHash  string `json:"sentHash"`  // SHA-256 of the bytes the kernel accepted
+	EndMs     int64  `json:"endMs"`     // when the read side ended (ms since the case began), -1 never
+	ActMs     int64  `json:"actMs"`     // when this peer made its end action
 }
 type c05TCPRes struct {
 	Name       string     `json:"name"`
@@ -51,6 +86,14 @@ type c05TCPRes struct {
 	Covert     c05PeerObs `json:"covert"`
 	ClientKind string     `json:"clientKind"` // dynamic type of the connection Proxy was given
 	DialErr    string     `json:"dialErr"`
+	// the tunnel's own summary line ("proxy closed {...}")
+	Summary   bool          `json:"summary"`
+	BytesUp   int64         `json:"bytesUp"`
+	BytesDown int64         `json:"bytesDown"`
+	ClientErr string        `json:"clientErr"`
+	CovertErr string        `json:"covertErr"`
+	ProbeA    *c05SockProbe `json:"probeA"` // station's client-side socket
+	ProbeB    *c05SockProbe `json:"probeB"` // station's covert-side socket
 }
 type c05TCPOut struct {
 	Cases      []c05TCPRes `json:"cases"`
@@ -75,14 +118,121 @@ func c05SmallBuf(c net.Conn) {
 	}
 }
 
-// runPeer plays one remote endpoint; done is closed when the relay has ended (Proxy returned or the bound passed)
-func c05RunPeer(c *net.TCPConn, p c05Peer, relayEnded <-chan struct{}, obs *c05PeerObs, wg *sync.WaitGroup) {
+// ---- duplicate descriptors of the station's sockets
+
+func c05DupOf(c *net.TCPConn) int {
+	rc, err := c.SyscallConn()
+	if err != nil {
+		return -1
+	}
+	d := -1
+	rc.Control(func(fd uintptr) {
+		nd, _, e := syscall.Syscall(syscall.SYS_FCNTL, fd, syscall.F_DUPFD_CLOEXEC, 0)
+		if e == 0 {
+			d = int(nd)
+		}
+	})
+	return d
+}
+
+func c05Ports(fd int) (local, peer int, ok bool) {
+	pa, err := syscall.Getpeername(fd)
+	if err != nil {
+		return 0, 0, false
+	}
+	la, err := syscall.Getsockname(fd)
+	if err != nil {
+		return 0, 0, false
+	}
+	p4, ok1 := pa.(*syscall.SockaddrInet4)
+	l4, ok2 := la.(*syscall.SockaddrInet4)
+	if !ok1 || !ok2 {
+		return 0, 0, false
+	}
+	return l4.Port, p4.Port, true
+}
+
+// the socket Proxy dialled: local port = the port the covert peer sees, peer port = the covert listener's
+func c05FindSock(localPort, peerPort int) (orig, dup int) {
+	for fd := 3; fd < 8192; fd++ {
+		l, p, ok := c05Ports(fd)
+		if !ok || l != localPort || p != peerPort {
+			continue
+		}
+		nd, _, e := syscall.Syscall(syscall.SYS_FCNTL, uintptr(fd), syscall.F_DUPFD_CLOEXEC, 0)
+		if e != 0 {
+			continue
+		}
+		if l2, p2, ok := c05Ports(int(nd)); ok && l2 == localPort && p2 == peerPort {
+			return fd, int(nd)
+		}
+		syscall.Close(int(nd))
+	}
+	return -1, -1
+}
+
+func c05Ino(fd int) (uint64, bool) {
+	var st syscall.Stat_t
+	if err := syscall.Fstat(fd, &st); err != nil {
+		return 0, false
+	}
+	return st.Ino, true
+}
+
+func c05ProbeRead(d int, origClosed bool) *c05SockProbe {
+	pr := &c05SockProbe{}
+	if d < 0 {
+		pr.Err = "no descriptor"
+		return pr
+	}
+	pr.Found = true
+	pr.OrigClosed = origClosed
+	var l syscall.Linger
+	lsz := uint32(unsafe.Sizeof(l))
+	if _, _, e := syscall.Syscall6(syscall.SYS_GETSOCKOPT, uintptr(d), uintptr(syscall.SOL_SOCKET), uintptr(syscall.SO_LINGER),
+		uintptr(unsafe.Pointer(&l)), uintptr(unsafe.Pointer(&lsz)), 0); e != 0 {
+		pr.Err = "SO_LINGER: " + e.Error()
+		return pr
+	}
+	pr.LingerOn, pr.LingerSecs = l.Onoff, l.Linger
+	var ti syscall.TCPInfo
+	sz := uint32(unsafe.Sizeof(ti))
+	if _, _, e := syscall.Syscall6(syscall.SYS_GETSOCKOPT, uintptr(d), uintptr(syscall.IPPROTO_TCP), uintptr(syscall.TCP_INFO),
+		uintptr(unsafe.Pointer(&ti)), uintptr(unsafe.Pointer(&sz)), 0); e != 0 {
+		pr.Err = "TCP_INFO: " + e.Error()
+		return pr
+	}
+	pr.State = int(ti.State)
+	var b [1]byte
+	n, _, err := syscall.Recvfrom(d, b[:], syscall.MSG_PEEK|syscall.MSG_DONTWAIT)
+	switch {
+	case err == nil && n == 0:
+		pr.Peek = "eof"
+	case err == nil:
+		pr.Peek = "data"
+	case errors.Is(err, syscall.EAGAIN):
+		pr.Peek = "again"
+	default:
+		pr.Peek = "err:" + err.Error()
+	}
+	return pr
+}
+
+// runPeer plays one remote endpoint; start is closed when the peers may make their end action, relayEnded when the
+// relay has ended (Proxy returned or the bound passed)
+func c05RunPeer(c *net.TCPConn, p c05Peer, t0 time.Time, start, relayEnded <-chan struct{}, obs *c05PeerObs, wg *sync.WaitGroup) {
 	defer wg.Done()
 	var mu sync.Mutex
 	readDone := make(chan struct{})
+	obs.EndMs, obs.ActMs = -1, -1
 	reader := func() {
 		defer close(readDone)
-		buf := make([]byte, 32*1024)
+		sz := 32 * 1024
+		if p.Read == "slow" && p.ChunkKB > 0 {
+			sz = p.ChunkKB * 1024
+		}
+		buf := make([]byte, sz)
+		h := sha256.New()
 		ok := true
 		for {
 			n, err := c.Read(buf)
@@ -92,6 +242,7 @@ func c05RunPeer(c *net.TCPConn, p c05Peer, relayEnded <-chan struct{}, obs *c05P
 					ok = false
 				}
 			}
+			h.Write(buf[:n])
 			obs.Got += n
 			obs.GotOK = ok
 			mu.Unlock()
@@ -109,13 +260,22 @@ func c05RunPeer(c *net.TCPConn, p c05Peer, relayEnded <-chan struct{}, obs *c05P
 				default:
 					obs.SawClose = "other:" + err.Error()
 				}
+				obs.Hash = hex.EncodeToString(h.Sum(nil))
+				if obs.SawClose != "" {
+					obs.EndMs = time.Since(t0).Milliseconds()
+				}
 				mu.Unlock()
 				return
+			}
+			if p.Read == "slow" && p.PauseUs > 0 {
+				// the throttle: this peer is slower than the sender
+				time.Sleep(time.Duration(p.PauseUs) * time.Microsecond)
 			}
 		}
 	}
 	obs.GotOK = true
-	if p.Read == "drain" {
+	reads := p.Read == "drain" || p.Read == "slow"
+	if reads {
 		go reader()
 	}
 	// writer
@@ -140,11 +300,21 @@ func c05RunPeer(c *net.TCPConn, p c05Peer, relayEnded <-chan struct{}, obs *c05P
 		}
 	}()
 	// the end action comes after the send finished or has been stuck for the delay
+	wait := 400 * time.Millisecond
+	if p.SendAll {
+		wait = 25 * time.Second // a sender of the slow lane ends only after the kernel took everything
+	}
 	select {
 	case <-sendDone:
-	case <-time.After(400 * time.Millisecond):
+	case <-time.After(wait):
 	}
+	<-start
 	time.Sleep(time.Duration(p.DelayMs) * time.Millisecond)
+	mu.Lock()
+	obs.ActMs = time.Since(t0).Milliseconds()
+	sh := sha256.Sum256(c05Pat(0, obs.Sent))
+	obs.SentHash = hex.EncodeToString(sh[:])
+	mu.Unlock()
 	switch p.End {
 	case "closewrite":
 		c.CloseWrite()
@@ -163,14 +333,18 @@ func c05RunPeer(c *net.TCPConn, p c05Peer, relayEnded <-chan struct{}, obs *c05P
 		mu.Unlock()
 		return
 	}
-	// what does this peer see now?  read whatever is buffered until EOF / reset (3 s)
-	if p.Read != "drain" {
+	// what does this peer see now?  read whatever is buffered until EOF / reset (3 s; the slow reader may take its time)
+	if !reads {
 		c.SetReadDeadline(time.Now().Add(3 * time.Second))
 		reader()
 	} else {
+		patience := 3 * time.Second
+		if p.Read == "slow" {
+			patience = 25 * time.Second
+		}
 		select {
 		case <-readDone:
-		case <-time.After(3 * time.Second):
+		case <-time.After(patience):
 			c.SetReadDeadline(time.Now())
 			<-readDone
 		}
@@ -191,6 +365,15 @@ func c05RunPeer(c *net.TCPConn, p c05Peer, relayEnded <-chan struct{}, obs *c05P
 	c.Close()
 }
 
+func c05PeerBufs(c net.Conn, big bool, p c05Peer) {
+	if !big {
+		c05SmallBuf(c)
+	}
+	if t, ok := c.(*net.TCPConn); ok && p.RcvBuf > 0 {
+		t.SetReadBuffer(p.RcvBuf)
+	}
+}
+
 func c05RunTCPCase(c c05TCPCase) (res c05TCPRes) {
 	res.Name = c.Name
 	l1, err := net.Listen("tcp", "127.0.0.1:0")
@@ -206,6 +389,7 @@ func c05RunTCPCase(c c05TCPCase) (res c05TCPRes) {
 	}
 	defer l2.Close()
 	relayEnded := make(chan struct{})
+	start := make(chan struct{})
 	var pw sync.WaitGroup
 	// client peer dials the "station"
 	cp, err := net.Dial("tcp", l1.Addr().String())
@@ -213,31 +397,41 @@ func c05RunTCPCase(c c05TCPCase) (res c05TCPRes) {
 		res.Panic = "dial: " + err.Error()
 		return
 	}
-	c05SmallBuf(cp)
+	c05PeerBufs(cp, c.BigBuf, c.Client)
 	stationClient, err := l1.Accept()
 	if err != nil {
 		res.Panic = "accept: " + err.Error()
 		return
 	}
-	c05SmallBuf(stationClient)
+	if !c.BigBuf {
+		c05SmallBuf(stationClient)
+	}
 	if _, ok := stationClient.(*net.TCPConn); ok {
 		res.ClientKind = "tcp"
 	} else {
 		res.ClientKind = "other"
 	}
+	t0 := time.Now()
+	dupA, dupB, origB := -1, -1, -1
+	if c.Probe {
+		dupA = c05DupOf(stationClient.(*net.TCPConn))
+	}
 	pw.Add(1)
-	go c05RunPeer(cp.(*net.TCPConn), c.Client, relayEnded, &res.Client, &pw)
+	go c05RunPeer(cp.(*net.TCPConn), c.Client, t0, start, relayEnded, &res.Client, &pw)
 	// covert peer: accepts what Proxy dials
+	accepted := make(chan int, 1) // the port the covert peer sees the station coming from (0: no connection)
 	pw.Add(1)
 	go func() {
 		l2.(*net.TCPListener).SetDeadline(time.Now().Add(10 * time.Second))
 		cc, err := l2.Accept()
 		if err != nil {
+			accepted <- 0
 			pw.Done()
 			return
 		}
-		c05SmallBuf(cc)
-		c05RunPeer(cc.(*net.TCPConn), c.Covert, relayEnded, &res.Covert, &pw)
+		c05PeerBufs(cc, c.BigBuf, c.Covert)
+		accepted <- cc.RemoteAddr().(*net.TCPAddr).Port
+		c05RunPeer(cc.(*net.TCPConn), c.Covert, t0, start, relayEnded, &res.Covert, &pw)
 	}()
 	var tr Transport = &mockTransport{}
 	reg := &DecoyRegistration{
@@ -248,7 +442,6 @@ func c05RunTCPCase(c c05TCPCase) (res c05TCPRes) {
 	lbuf := &c05Buf{}
 	logger := log.New(lbuf, "", 0)
 	ret := make(chan string, 1)
-	t0 := time.Now()
 	go func() {
 		defer func() {
 			if r := recover(); r != nil {
@@ -258,8 +451,21 @@ func c05RunTCPCase(c c05TCPCase) (res c05TCPRes) {
 			ret <- ""
 		}()
 		Proxy(reg, stationClient, logger)
-		stationClient.Close() // the handler's deferred Close
+		if !c.Probe {
+			stationClient.Close() // the handler's deferred Close
+		}
 	}()
+	if c.Probe {
+		// the tunnel is up and idle (the peers wait for `start`): find the socket Proxy dialled
+		select {
+		case port := <-accepted:
+			if port != 0 {
+				origB, dupB = c05FindSock(port, l2.Addr().(*net.TCPAddr).Port)
+			}
+		case <-time.After(10 * time.Second):
+		}
+	}
+	close(start)
 	bound := time.Duration(c.BoundMs) * time.Millisecond
 	select {
 	case p := <-ret:
@@ -269,6 +475,33 @@ func c05RunTCPCase(c c05TCPCase) (res c05TCPRes) {
 	case <-time.After(bound):
 		res.ReturnedMs = -1
 	}
+	if c.Probe {
+		// what did the station's shutdown calls leave on its two sockets?  (its own descriptors are closed or not;
+		// the sockets live on through the duplicates, so nothing has been sent or discarded yet)
+		closedA := false
+		if rc, err := stationClient.(*net.TCPConn).SyscallConn(); err != nil {
+			closedA = true
+		} else if err := rc.Control(func(uintptr) {}); err != nil {
+			closedA = true
+		}
+		res.ProbeA = c05ProbeRead(dupA, closedA)
+		closedB := true
+		if dupB >= 0 && origB >= 0 {
+			i1, ok1 := c05Ino(dupB)
+			i2, ok2 := c05Ino(origB)
+			closedB = !(ok1 && ok2 && i1 == i2)
+		}
+		res.ProbeB = c05ProbeRead(dupB, closedB)
+		if res.Returned {
+			stationClient.Close() // the handler's deferred Close
+		}
+		if dupA >= 0 {
+			syscall.Close(dupA)
+		}
+		if dupB >= 0 {
+			syscall.Close(dupB)
+		}
+	}
 	close(relayEnded)
 	pw.Wait()
 	if !res.Returned {
@@ -277,6 +510,22 @@ func c05RunTCPCase(c c05TCPCase) (res c05TCPRes) {
 		select {
 		case <-ret:
 		case <-time.After(5 * time.Second):
+		}
+	}
+	// the tunnel's own account of what it forwarded
+	if txt := lbuf.String(); strings.Contains(txt, "proxy closed ") {
+		var ts struct {
+			BytesUp, BytesDown                      int64
+			CovertDialErr, CovertConnErr, ClientConnErr string
+		}
+		js := txt[strings.Index(txt, "proxy closed ")+len("proxy closed "):]
+		if i := strings.IndexByte(js, '\n'); i >= 0 {
+			js = js[:i]
+		}
+		if json.Unmarshal([]byte(js), &ts) == nil {
+			res.Summary = true
+			res.BytesUp, res.BytesDown = ts.BytesUp, ts.BytesDown
+			res.ClientErr, res.CovertErr, res.DialErr = ts.ClientConnErr, ts.CovertConnErr, ts.CovertDialErr
 		}
 	}
 	return res
